@@ -424,6 +424,8 @@ def run(rep, tier):
         # every row of a pass is convolved: the rows after the last full group of four too
         from ..engines import row_coverage
         rep.call(row_coverage.group_tail, rep, prog, "C01.kernel-rows")
+        from ..engines import simd_rules as _simd
+        rep.call(_simd.native_clip, rep, prog, "C01.native-clip")
         if cfg.startswith("x86"):
             from ..engines import lanepair
             rep.call(lanepair.pairing, rep, prog, "C01.lane-pairing")
